@@ -278,7 +278,13 @@ class Spec:
         return False
 
     def projection_cls(self):
+        """Nearest base class whose constructor takes (adjacency, directed,
+        node_weights): InteractingNetworks or Network, by MRO."""
         from pyunicorn.core.network import Network
+        from pyunicorn.core.interacting_networks import InteractingNetworks
+        for c in self.cls().__mro__[1:]:
+            if c in (InteractingNetworks, Network):
+                return c
         return Network
 
     def projection(self, m, weights):
@@ -540,6 +546,199 @@ class MutualInfoSpec(TsonisSpec):
     kind = "mutual"
 
 
+class PartialSpec(TsonisSpec):
+    name = "PartialCorrelationClimateNetwork"
+    kind = "partial"
+
+    def gen_model(self, r):
+        m = TsonisSpec.gen_model(self, r)
+        # keep the correlation matrix well conditioned: more samples than
+        # nodes, all months
+        m["winter"] = False
+        return m
+
+    def mutators(self):
+        return [mu for mu in TsonisSpec.mutators(self)
+                if mu.name != "set_winter_only"]
+
+
+class HavlinSpec(TsonisSpec):
+    name = "HavlinClimateNetwork"
+
+    def cls(self):
+        from pyunicorn.climate.havlin import HavlinClimateNetwork
+        return HavlinClimateNetwork
+
+    def gen_model(self, r):
+        m = TsonisSpec.gen_model(self, r)
+        del m["winter"]
+        m["max_delay"] = r.choice((1, 2, 4))
+        return m
+
+    def construct(self, m):
+        return self.cls()(self.data(m), m["max_delay"], **self.ctor_kw(m))
+
+    def mutators(self):
+        def u_d(m, a, obj):
+            _reinit_update(m)
+            if m["rho"] is not None:
+                m["thr"], m["rho"] = float(obj.threshold()), None
+            m["max_delay"] = a["v"]
+        return ClimateSpec.mutators(self) + [
+            Mut("set_max_delay", lambda r, m: {"v": r.choice((1, 2, 3, 5))},
+                lambda obj, a, m: obj.set_max_delay(a["v"]), u_d, True)]
+
+
+class HilbertSpec(TsonisSpec):
+    name = "HilbertClimateNetwork"
+
+    def cls(self):
+        from pyunicorn.climate.hilbert import HilbertClimateNetwork
+        return HilbertClimateNetwork
+
+    def gen_model(self, r):
+        m = TsonisSpec.gen_model(self, r)
+        del m["winter"]
+        m["directed"] = r.random() < 0.5
+        return m
+
+    def construct(self, m):
+        return self.cls()(self.data(m), directed=m["directed"],
+                          **self.ctor_kw(m))
+
+    def mutators(self):
+        def u_d(m, a, obj):
+            _reinit_update(m)
+            if m["rho"] is not None:
+                m["thr"], m["rho"] = float(obj.threshold()), None
+            m["directed"] = a["v"]
+        # the Network-level topology mutators assume an undirected model
+        keep = [x for x in NET_MUTS if x.name in (
+            "node_weights=", "set_link_attribute", "del_link_attribute")]
+        return keep + self.clim_muts() + [
+            Mut("set_directed", lambda r, m: {"v": r.random() < 0.5},
+                lambda obj, a, m: obj.set_directed(a["v"]), u_d, True)]
+
+
+class CoupledSpec(ClimateSpec):
+    name = "CoupledClimateNetwork"
+
+    def cls(self):
+        from pyunicorn.climate.coupled_climate_network import \
+            CoupledClimateNetwork
+        return CoupledClimateNetwork
+
+    def gen_model(self, r):
+        m = ClimateSpec.gen_model(self, r)
+        n1 = max(2, m["n"] // 2)
+        n2 = max(2, m["n"] - n1)
+        m["n"] = n1 + n2
+        m["S"]["n"] = m["n"]
+        m["grid"] = {"n": n1, "s": r.randrange(10 ** 9)}
+        m["grid2"] = {"n": n2, "s": r.randrange(10 ** 9)}
+        return m
+
+    def construct(self, m):
+        return self.cls()(geo_grid(m["grid"]), geo_grid(m["grid2"]),
+                          mat(m["S"]), directed=False, **self.ctor_kw(m))
+
+
+class ESCNSpec(ClimateSpec):
+    name = "EventSeriesClimateNetwork"
+
+    def cls(self):
+        from pyunicorn.climate.eventseries_climatenetwork import \
+            EventSeriesClimateNetwork
+        return EventSeriesClimateNetwork
+
+    def gen_model(self, r):
+        n = r.randrange(3, 7)
+        T = r.randrange(20, 40)
+        return {"n": n, "directed": False, "A": None, "A_assigned": False,
+                "w": "default", "attrs": {},
+                "grid": {"n": n, "s": r.randrange(10 ** 9), "T": T},
+                "E": {"k": "events", "T": T, "n": n, "p": 0.25,
+                      "s": r.randrange(10 ** 9)},
+                "method": r.choice(("ES", "ECA")), "taumax": 3.0,
+                "sym": r.choice(("mean", "max")),
+                "thr": 0, "rho": None, "non_local": False, "nwt": "surface"}
+
+    def construct(self, m):
+        from pyunicorn.climate.climate_data import ClimateData
+        data = ClimateData(observable=mat(m["E"]).astype(float),
+                           grid=geo_grid(m["grid"]), time_cycle=12,
+                           silence_level=3)
+        return self.cls()(data, method=m["method"], taumax=m["taumax"],
+                          symmetrization=m["sym"], non_local=False,
+                          node_weight_type=m["nwt"], silence_level=3)
+
+    def post(self, obj, m):
+        # the constructor always thresholds at 0: repeat the climate-level
+        # setters on the fresh object, then weights and attributes
+        if m["non_local"]:
+            obj.set_non_local(True)
+        if m["rho"] is not None:
+            obj.set_link_density(m["rho"])
+        elif m["thr"] != 0:
+            obj.set_threshold(m["thr"])
+        Spec.post(self, obj, m)
+
+
+class ISRNSpec(Spec):
+    name = "InterSystemRecurrenceNetwork"
+    derived_A = True
+
+    def cls(self):
+        from pyunicorn.timeseries.inter_system_recurrence_network import \
+            InterSystemRecurrenceNetwork
+        return InterSystemRecurrenceNetwork
+
+    def gen_model(self, r):
+        Tx, Ty = r.randrange(8, 14), r.randrange(8, 14)
+        m = {"n": Tx + Ty, "directed": False, "A": None, "A_assigned": False,
+             "w": "default", "attrs": {},
+             "x": {"k": "series1", "T": Tx, "s": r.randrange(10 ** 9)},
+             "y": {"k": "series1", "T": Ty, "s": r.randrange(10 ** 9)}}
+        self._crit(r, m)
+        return m
+
+    @staticmethod
+    def _crit(r, m):
+        if r.random() < 0.5:
+            m["crit"], m["cv"] = "threshold", [r.choice((0.3, 0.8, 1.5))
+                                               for _ in range(3)]
+        else:
+            m["crit"], m["cv"] = "recurrence_rate", [
+                r.choice((0.1, 0.3, 0.5)) for _ in range(3)]
+
+    def construct(self, m):
+        return self.cls()(mat(m["x"]), mat(m["y"]), silence_level=3,
+                          **{m["crit"]: tuple(m["cv"])})
+
+    def mutators(self):
+        out = []
+        for c, setter in (("threshold", "set_fixed_threshold"),
+                          ("recurrence_rate", "set_fixed_recurrence_rate")):
+            def gen(r, m, c=c):
+                mm = {}
+                while True:
+                    ISRNSpec._crit(r, mm)
+                    if mm["crit"] == c:
+                        return {"c": c, "v": mm["cv"]}
+
+            def app(obj, a, m, setter=setter):
+                getattr(obj, setter)(tuple(a["v"]))
+
+            def upd(m, a, obj):
+                m["crit"], m["cv"] = a["c"], a["v"]
+                # the new matrix is installed through the adjacency setter:
+                # the embedded graph (link attributes) is rebuilt, the node
+                # weights stay
+                m["A_assigned"], m["A"], m["attrs"] = False, None, {}
+            out.append(Mut(setter, gen, app, upd, True))
+        return list(NET_MUTS) + out
+
+
 class RPSpec(Spec):
     name = "RecurrencePlot"
     family = "rp"
@@ -786,10 +985,6 @@ class VGSpec(Spec):
     name = "VisibilityGraph"
     derived_A = True
 
-    def projection_cls(self):
-        from pyunicorn.core.interacting_networks import InteractingNetworks
-        return InteractingNetworks
-
     def cls(self):
         from pyunicorn.timeseries.visibility_graph import VisibilityGraph
         return VisibilityGraph
@@ -952,7 +1147,9 @@ class EventSeriesSpec(Spec):
 
 SPECS = [NetworkSpec(), InteractingSpec(), GeoSpec(), SpatialSpec(),
          ResSpec(), ClimateSpec(), TsonisSpec(), SpearmanSpec(),
-         MutualInfoSpec(), RPSpec(), RNSpec(), CRPSpec(), JRPSpec(),
+         MutualInfoSpec(), PartialSpec(), HavlinSpec(), HilbertSpec(),
+         CoupledSpec(), ESCNSpec(), ISRNSpec(),
+         RPSpec(), RNSpec(), CRPSpec(), JRPSpec(),
          JRNSpec(), VGSpec(), SurrSpec(), ClimateDataSpec(), GeoGridSpec(),
          GridSpec(), EventSeriesSpec()]
 BY_NAME = {s.name: s for s in SPECS}
